@@ -85,7 +85,18 @@ pub fn write_dso_debug_stream(
         .get_program_header_address()
         .ok_or(SectionDsoDebugError::CouldNotFind("AT_PHDR in auxv"))? as usize;
 
-    let ph = PtraceDumper::copy_from_process(blamed_thread, phdr, SIZEOF_PHDR * phnum_max)?;
+    // AT_PHNUM / AT_PHDR may come straight from the (crashed) target, don't trust them
+    let ph_size = SIZEOF_PHDR
+        .checked_mul(phnum_max)
+        .ok_or(SectionDsoDebugError::CouldNotFind(
+            "a program header count that fits the address space",
+        ))?;
+    let ph = PtraceDumper::copy_from_process(blamed_thread, phdr, ph_size)?;
+    if ph.len() != ph_size {
+        return Err(SectionDsoDebugError::CouldNotFind(
+            "the complete program header table in the target",
+        ));
+    }
     let program_headers;
     #[cfg(target_pointer_width = "64")]
     {
@@ -108,7 +119,7 @@ pub fn write_dso_debug_stream(
         // Adjust base address with the virtual address of the PT_LOAD segment
         // corresponding to offset 0
         if ph.p_type == goblin::elf::program_header::PT_LOAD && ph.p_offset == 0 {
-            base -= ph.p_vaddr as usize;
+            base = base.wrapping_sub(ph.p_vaddr as usize);
         }
         if ph.p_type == goblin::elf::program_header::PT_DYNAMIC {
             dyn_addr = ph.p_vaddr;
@@ -121,7 +132,7 @@ pub fn write_dso_debug_stream(
         ));
     }
 
-    dyn_addr += base as ElfAddr;
+    dyn_addr = dyn_addr.wrapping_add(base as ElfAddr);
 
     let dyn_size = std::mem::size_of::<goblin::elf::Dyn>();
     let mut r_debug = 0usize;
